@@ -115,6 +115,10 @@ def main():
     finally:
         sh(["git", "-C", "/repo", "worktree", "remove", "--force", tree])
         shutil.rmtree(tree, ignore_errors=True)
+        # the isolated framework copy bin/check_alt made for this tree (several hundred MB of .vo files)
+        import hashlib
+        key = hashlib.sha1((os.path.realpath(tree) + "\n").encode()).hexdigest()[:12]
+        shutil.rmtree(os.path.join(ROOT, "_work", "alt", key), ignore_errors=True)
     return finish(seeddir, res)
 
 
